@@ -404,6 +404,45 @@ class Rewriter:
                 out.append(T('ident', 'to_str_', t.start))
                 k += 1
                 continue
+            # R4-join (expression position): `<postfix chain>.join(sep)` -> Str::opaque()
+            if is_id(t, 'join') and prv_out() is not None and is_p(prv_out(), '.') and nxt(k) < n and is_p(toks[nxt(k)], '('):
+                e = match_close(toks, nxt(k))
+                # walk back over the receiver chain in `out`
+                j = len(out) - 1
+                while j >= 0 and out[j].kind in ('ws', 'comment', 'doc'):
+                    j -= 1
+                # out[j] is the '.' before join
+                j -= 1
+                depth = 0
+                while j >= 0:
+                    x = out[j]
+                    if x.kind in ('ws', 'comment', 'doc'):
+                        j -= 1
+                        continue
+                    if x.kind == 'punct' and x.text in ')]>':
+                        depth += 1
+                    elif x.kind == 'punct' and x.text in '([<':
+                        if depth == 0:
+                            break
+                        depth -= 1
+                    elif x.kind == 'punct' and x.text == '>>':
+                        depth += 2
+                    elif depth == 0 and not (x.kind in ('ident', 'raw', 'num', 'str', 'lifetime') or (x.kind == 'punct' and x.text in ('.', '::', '|', '&', '?'))):
+                        break
+                    j -= 1
+                start = j + 1
+                while start < len(out) and out[start].kind in ('ws', 'comment', 'doc'):
+                    start += 1
+                self.rec('R4-join', text_of(out[start:]) + 'join(..)', 'Str::opaque()')
+                del out[start:]
+                out.append(T('raw', 'Str::opaque()', t.start))
+                k = e + 1
+                continue
+            if is_id(t, 'unwrap_or_default') and prv_out() is not None and is_p(prv_out(), '.'):
+                out.append(T('ident', 'unwrap_or_default_', t.start))
+                self.rec('R11', '.unwrap_or_default()', '.unwrap_or_default_()')
+                k += 1
+                continue
             if is_id(t, 'unwrap') and prv_out() is not None and is_p(prv_out(), '.') and nxt(k) < n and is_p(toks[nxt(k)], '('):
                 out.append(T('ident', 'unwrap_', t.start))
                 self.rec('R11', '.unwrap()', '.unwrap_()')
@@ -456,6 +495,31 @@ class Rewriter:
                                 out.append(T('punct', ')', toks[e1].start))
                                 k = nxt(g) + 1
                                 continue
+            # R5: `.iter().filter(P).count()` -> `.iter_count(P)`  (a `|&x|` parameter pattern becomes `|x|`: the helper passes `&T`)
+            if is_id(t, 'iter') and prv_out() is not None and is_p(prv_out(), '.'):
+                a = nxt(k)
+                bq = nxt(a) if a < n else n
+                c = nxt(bq) if bq < n else n
+                d = nxt(c) if c < n else n
+                e0 = nxt(d) if d < n else n
+                if (a < n and is_p(toks[a], '(') and bq < n and is_p(toks[bq], ')') and c < n and is_p(toks[c], '.') and d < n
+                        and is_id(toks[d], 'filter') and e0 < n and is_p(toks[e0], '(')):
+                    e1 = match_close(toks, e0)
+                    f0 = nxt(e1)
+                    f1 = nxt(f0) if f0 < n else n
+                    g = nxt(f1) if f1 < n else n
+                    if f0 < n and is_p(toks[f0], '.') and f1 < n and is_id(toks[f1], 'count') and g < n and is_p(toks[g], '(') and nxt(g) < n and is_p(toks[nxt(g)], ')'):
+                        inner = toks[e0 + 1:e1]
+                        si = [q for q, x in enumerate(inner) if x.kind not in ('ws', 'comment', 'doc')]
+                        if len(si) >= 4 and is_p(inner[si[0]], '|') and is_p(inner[si[1]], '&') and is_id(inner[si[2]]) and is_p(inner[si[3]], '|'):
+                            inner = inner[:si[1]] + inner[si[1] + 1:]
+                        self.rec('R5', '.iter().filter(..).count()', '.iter_count(..)')
+                        out.append(T('ident', 'iter_count', t.start))
+                        out.append(T('punct', '(', toks[e0].start))
+                        out.extend(self.basic(inner, in_const))
+                        out.append(T('punct', ')', toks[e1].start))
+                        k = nxt(g) + 1
+                        continue
             # R5: `.iter().position(` -> `.iter_position(` etc. (verified helpers in shim/iter.rs)
             if is_id(t, 'iter') and prv_out() is not None and is_p(prv_out(), '.'):
                 a = nxt(k)
